@@ -649,15 +649,165 @@ fn c09_hist(input: &Input, obs: &mut Obs) -> Result<(), Fail> {
     }
 }
 
+/// E2: every applicable sequence of adversary macro-operations; after each one the witness must
+/// complete a round trip. params = operation codes.
+/// 0 connect 1 one request 2 two pipelined requests 3 garbage 4 partial request 5 shutdown(RD)
+/// 6 shutdown(WR) 7 close 8 answer the adversary's oldest request 9 answer it with 300 KB
+fn c09_macro(input: &Input, obs: &mut Obs) -> Result<(), Fail> {
+    let ops = input.params();
+    let mut w = World::new(6, false, obs.want_render).map_err(|e| Fail::new("harness-world", e))?;
+    let wit = 0usize;
+    let mut adv = 1usize;
+    // the witness' own choices are a fixed function of the position
+    let seedbytes: Vec<u8> = crate::src::filler(1, ops.len() as u8, 64);
+    let mut s = Src::new(&seedbytes);
+    let mut died_in_flight = false;
+    let mut trips_after = 0;
+    let spec = ReqSpec { method: 0, version: 1, body: 0, expect: false, extra_headers: 0, body_kind: 0 };
+    let r = (|| -> Result<(), (String, String)> {
+        w.connect(wit);
+        w.settle(100, false);
+        for op in ops {
+            let alive_before = w.clients[adv].state == CState::Connected && !w.clients[adv].shut_rd && !w.clients[adv].shut_wr;
+            let inflight = w.outstanding.iter().any(|o| o.c == adv);
+            match *op {
+                0 => {
+                    if w.clients[adv].state == CState::Closed && adv + 1 < 6 {
+                        adv += 1;
+                    }
+                    w.connect(adv);
+                }
+                1 => w.send_request(adv, &spec, &[]),
+                2 => {
+                    w.send_request(adv, &spec, &[]);
+                    w.send_request(adv, &spec, &[]);
+                }
+                3 => {
+                    w.clients[adv].dirty = true;
+                    w.send_raw(adv, GARBAGE[ops.len() % GARBAGE.len()]);
+                }
+                4 => {
+                    w.send_request(adv, &ReqSpec { method: 1, version: 1, body: 50, expect: false, extra_headers: 1, body_kind: 0 }, &[30]);
+                    w.clients[adv].staged.clear();
+                    w.clients[adv].dirty = true;
+                }
+                5 => w.shutdown_client(adv, libc::SHUT_RD),
+                6 => w.shutdown_client(adv, libc::SHUT_WR),
+                7 => w.close_client(adv),
+                8 | 9 => {
+                    if let Some(k) = w.outstanding.iter().position(|o| o.c != wit) {
+                        if !w.respond(k, 200, if *op == 9 { 300_000 } else { 20 }) {
+                            return Err(("respond-err".into(), w.api_errors.last().cloned().unwrap_or_default()));
+                        }
+                    }
+                }
+                _ => {}
+            }
+            let alive_after = w.clients[adv].state == CState::Connected && !w.clients[adv].shut_rd && !w.clients[adv].shut_wr;
+            if alive_before && !alive_after && inflight {
+                died_in_flight = true;
+            }
+            // one poll may or may not happen before the witness acts (position parity decides)
+            if ops.len() % 2 == 0 {
+                if let PollRes::Err(e) = w.poll() {
+                    return Err((format!("requests-err:{}", e), format!("requests() returned Err({})", e)));
+                }
+            }
+            witness_roundtrip(&mut w, wit, &mut s, 64)?;
+            if died_in_flight {
+                trips_after += 1;
+            }
+        }
+        while let Some(k) = w.outstanding.iter().position(|o| o.c != wit) {
+            if !w.respond(k, 200, 10) {
+                return Err(("respond-err".into(), w.api_errors.last().cloned().unwrap_or_default()));
+            }
+        }
+        w.answer_untagged();
+        for a in 1..6 {
+            w.close_client(a);
+        }
+        w.settle(200, true);
+        witness_roundtrip(&mut w, wit, &mut s, 64)?;
+        for (i, pr) in w.poll_results.iter().enumerate() {
+            if let PollRes::Err(e) = pr {
+                return Err((format!("requests-err:{}", e), format!("requests() call #{} returned Err({})", i + 1, e)));
+            }
+        }
+        let held = w.held();
+        if held != 1 {
+            return Err(("not-released".into(), format!("the adversary is closed and everything yielded is answered, yet the server holds {} connection descriptors besides listener and epoll (expected 1: the witness)", held)));
+        }
+        Ok(())
+    })();
+    obs.nontrivial = died_in_flight && trips_after > 0;
+    if died_in_flight {
+        obs.label("adversary_died_with_requests_in_flight");
+    }
+    if obs.want_render {
+        obs.render = format!("ops={:?}\n{}", ops, w.render());
+    }
+    match r {
+        Ok(()) => Ok(()),
+        Err((sig, msg)) => Err(wfail("C09", &sig, msg, &w)),
+    }
+}
+
+fn c09_macro_enum(tier: Tier, shard: u64, nshards: u64, f: &mut dyn FnMut(&[u64]) -> bool) {
+    let depth = if tier == Tier::Quick { 6 } else { 8 };
+    // abstract adversary state: 0 none, 1 connected, 2 shut-rd, 3 shut-wr, 4 closed; pending requests estimate
+    fn rec(depth: usize, st: u8, pending: u8, connects: u8, seq: &mut Vec<u64>, counter: &mut u64, shard: u64, nshards: u64, f: &mut dyn FnMut(&[u64]) -> bool, stop: &mut bool) {
+        if *stop {
+            return;
+        }
+        if !seq.is_empty() {
+            *counter += 1;
+            if *counter % nshards == shard && !f(seq) {
+                *stop = true;
+                return;
+            }
+        }
+        if seq.len() == depth {
+            return;
+        }
+        for op in 0..10u64 {
+            let (ok, nst, npend, nconn) = match op {
+                0 => ((st == 0 || st == 4) && connects < 3, 1, pending, connects + 1),
+                1 => (st == 1 || st == 2, st, (pending + 1).min(3), connects),
+                2 => (st == 1 || st == 2, st, (pending + 2).min(3), connects),
+                3 => (st == 1 || st == 2, st, pending, connects),
+                4 => (st == 1, st, pending, connects),
+                5 => (st == 1, 2, pending, connects),
+                6 => (st == 1 || st == 2, 3, pending, connects),
+                7 => (st != 0 && st != 4, 4, pending, connects),
+                8 => (pending > 0, st, pending - pending.min(1), connects),
+                _ => (pending > 0 && st != 4, st, pending - pending.min(1), connects),
+            };
+            if ok {
+                seq.push(op);
+                rec(depth, nst, npend, nconn, seq, counter, shard, nshards, f, stop);
+                seq.pop();
+            }
+        }
+    }
+    let mut seq = Vec::new();
+    let mut counter = 0;
+    let mut stop = false;
+    rec(depth, 0, 0, 0, &mut seq, &mut counter, shard, nshards, f, &mut stop);
+}
+
 fn c09_plan(tier: Tier) -> Vec<Job> {
     let q = tier == Tier::Quick;
-    vec![Job { sub: "hist", kind: JobKind::Pbt { cases: if q { 40_000 } else { 800_000 }, max_len: 500 }, smallbuf: false }]
+    vec![
+        Job { sub: "hist", kind: JobKind::Pbt { cases: if q { 40_000 } else { 800_000 }, max_len: 500 }, smallbuf: false },
+        Job { sub: "macro", kind: JobKind::Enum { f: c09_macro_enum, bound: if q { "all applicable adversary macro-operation sequences of length <= 6 over {connect, 1 request, 2 pipelined, garbage, partial, shutdown(RD), shutdown(WR), close, answer (small), answer (300 KB)}, a witness round trip after every operation" } else { "same, length <= 8" } }, smallbuf: false },
+    ]
 }
 
 pub fn c09() -> PropDef {
     PropDef {
         id: "C09",
-        subs: vec![("hist", c09_hist)],
+        subs: vec![("hist", c09_hist), ("macro", c09_macro)],
         plan: c09_plan,
         rule: "case = history with one witness client doing request/response round trips and 1..3 adversaries executing random sequences of {valid/invalid/partial/oversized sends, shutdown(RD), shutdown(WR), close, never read}, the application answering adversary requests arbitrarily late or never; skeletons for write-failure-with-requests-in-flight, hang-up-with-queued-output, garbage-then-close; oracle = requests() never returns Err, every witness round trip completes within 64 requests() calls, and once everything yielded is answered and every adversary is dead the server holds exactly one connection descriptor (/proc/self/fd); non-trivial = an adversary died or became unwritable with >=1 request in flight and the witness completed a round trip afterwards",
         assumptions: vec!["bounded liveness: 64 requests() calls per witness round trip", "a connection kept only for late responses may keep the epoll descriptor readable (not forbidden for misbehaving clients)"],
